@@ -252,6 +252,30 @@ func enumC16(c *lib.Ctx, yield func(c16Case) bool) {
 			}
 			continue
 		}
+		// timed family: the second (and third) request arrives d cycles after the
+		// first, for every d up to beyond the fill time: reaches windows such as
+		// "fill data arrived, MSHR entry released, bank write not finished yet"
+		if hasCache(cfg) && cfg.Memory == "ideal" && cfg.NumMem == 1 && cfg.Eager && len(cfg.Stages) == 1 && cfg.PortBuf == 4 {
+			maxD := 16 + 6*cfg.Lat
+			ok := enumScripts(alpha2, 2, func(ops []simx.MemOp) bool {
+				if ops[0].Addr/simx.LineSize != ops[1].Addr/simx.LineSize {
+					return true // the window is about one line
+				}
+				for d := 2; d <= maxD; d++ {
+					o := cloneOps(ops)
+					o[1].At = uint64(d)
+					// a third access re-reads the line after everything settled
+					o = append(o, fillOp(simx.MemOp{Addr: ops[0].Addr / simx.LineSize * simx.LineSize, Size: simx.LineSize, At: uint64(maxD + 40)}, 2))
+					if !yield(c16Case{cfg, o}) {
+						return false
+					}
+				}
+				return true
+			})
+			if !ok {
+				return
+			}
+		}
 		// deep family: direct-mapped caches make eviction reachable with one other
 		// line, so k = 4 over 2 lines covers miss + coalesced write + eviction + re-read
 		if hasCache(cfg) && cfg.Memory == "ideal" && cfg.NumMem == 1 && cfg.Lat == 1 && cfg.Eager && len(cfg.Stages) == 1 {
@@ -280,7 +304,7 @@ func init() {
 		ID:    "C16",
 		Level: "exploration",
 		Rule: "exhaustive small-scope simulation: assemblies = {none, rob, wb, wt-around, wt-evict, wt-through, wt-*>wb, rob>wb, rob>wt-through>wb, wb>wb} x memory {ideal, banked 1/2 banks} x {1, 2 interleaved controllers} x 3 (port buffer, latency, MSHR) settings x {one-at-a-time, eager} issue, plus 5 DRAM presets x {open, close} x {none, wb}; " +
-			"caches are 2 sets x 2 ways x 64 B with all line addresses forced into one set; workloads = every sequence of k operations over {read4@0, read4@8, read line, write line, write4@0, write4@8, masked line write} x lines (quick: k=2 over 3 lines everywhere, k=3 over 3 lines on cache-bearing assemblies over one ideal memory, k=4 over 2 lines on direct-mapped single caches; thorough: k=2 over 4 lines and k=3 over 3 lines everywhere, k=4 over 2 lines on two-level hierarchies, k=5 over 2 lines on direct-mapped and k=4 over 3 lines on 2-way single caches), run on the real components and SerialEngine; " +
+			"caches are 2 sets x 2 ways x 64 B with all line addresses forced into one set; workloads = every sequence of k operations over {read4@0, read4@8, read line, write line, write4@0, write4@8, masked line write} x lines (quick: k=2 over 3 lines everywhere, k=3 over 3 lines on cache-bearing assemblies over one ideal memory, k=4 over 2 lines on direct-mapped single caches, and a timed family: every pair of operations on one line with the second delayed by every d in 2..16+6*latency cycles plus a final re-read; thorough: k=2 over 4 lines and k=3 over 3 lines everywhere, k=4 over 2 lines on two-level hierarchies, k=5 over 2 lines on direct-mapped and k=4 over 3 lines on 2-way single caches), run on the real components and SerialEngine; " +
 			"oracle = flat byte map (masks honoured) in script order (legal because overlapping requests are never in flight together), exactly one response of the right kind per request addressed to the requester, nothing outstanding at the end. Each (assembly, script) is a distinct case.",
 		Sharded:     true,
 		MinOutcomes: 20,
